@@ -34,6 +34,23 @@ _BIN = {
 }
 
 
+class Record:
+    """a concrete stand-in for an object of the program in a valuation: named fields, identity by label"""
+
+    def __init__(self, label, **fields):
+        self.label = label
+        self.fields = fields
+
+    def __repr__(self):
+        return f"<{self.label}" + "".join(f" {k}={v!r}" for k, v in self.fields.items()) + ">"
+
+    def __hash__(self):
+        return hash(self.label)
+
+    def __eq__(self, other):
+        return isinstance(other, Record) and other.label == self.label
+
+
 def eval_term(tm, leaf: t.Callable[[tuple], t.Any]):
     """evaluate a term; `leaf(term)` supplies values for non-operator terms (raise Unsupported)"""
     tag = tm[0]
@@ -78,6 +95,17 @@ def eval_term(tm, leaf: t.Callable[[tuple], t.Any]):
         except AnalysisError:
             obj = eval_term(tm[1][1], leaf)
             return pure_method(obj, tm[1][2], [eval_term(a, leaf) for a in tm[2]])
+    if tag == "attr":
+        try:
+            return leaf(tm)
+        except AnalysisError:
+            try:
+                obj = eval_term(tm[1], leaf)
+            except AnalysisError:
+                obj = None
+            if isinstance(obj, Record) and tm[2] in obj.fields:
+                return obj.fields[tm[2]]
+            raise
     if tag == "item":
         try:
             return leaf(tm)
